@@ -2213,6 +2213,20 @@ impl Scenario for PayloadCut {
                     p.padding = rng.range(16, 40) as usize;
                     p.fix_sizes();
                 }
+                // in half of the mid-continuation cases a second payload of the SAME link gets the fault too
+                // (another continuation page, so the state machine is not in its initial state either)
+                let mut second_pi: Option<usize> = None;
+                if !before_stop && rng.chance(1, 2) {
+                    let others: Vec<usize> =
+                        cands.iter().filter(|&&(l, p, bs)| l == li && !bs && p != pi && p + 1 != pi && pi + 1 != p).map(|&(_, p, _)| p).collect();
+                    if !others.is_empty() {
+                        let p2 = others[rng.usize_below(others.len())];
+                        let p = &mut st.links[li].packets[p2];
+                        p.padding = rng.range(16, 40) as usize;
+                        p.fix_sizes();
+                        second_pi = Some(p2);
+                    }
+                }
                 let offs = st.offsets();
                 let pos_of = |li: usize, pi: usize| -> usize {
                     let k = st.order.iter().position(|&(l, p)| l == li && p == pi).unwrap();
@@ -2227,12 +2241,17 @@ impl Scenario for PayloadCut {
                 if rng.chance(3, 4) {
                     swarm_schedule(&mut spec, &mut rng, 300 + st.total_packets() as u64 * 12);
                 }
+                let second = second_pi.map(|p2| {
+                    let o = pos_of(li, p2) as u64;
+                    (o, o + st.links[li].packets[p2].rdh.memory_size as u64)
+                });
                 Trial::ExcessPadding {
                     spec,
                     rdh_off,
                     payload_end,
                     expect_only_payload_error: !before_stop,
                     e30_at,
+                    second,
                     label: format!(
                         "excess padding {} | {}",
                         if before_stop { "before stop page" } else { "mid-continuation" },
